@@ -91,6 +91,8 @@ var gens = []generator{
 	{file: "GbSlice.lean", src: "seqio/genbank.go (GenBankFields.Slice)", run: genGbSlice},
 	{file: "IoDelegateFacts.lean", src: "cmd/gts/io.go (the cache protocol: newIODelegate, TryCache, Write, Commit, Close as facts)", run: genIoDelegateFacts},
 	{file: "IoDelegate.lean", src: "cmd/gts/io.go (gtsCacheDir, newIODelegate, Commit, Write, Close, TryCache as functions over I/O primitives)", run: genIoDelegateFn},
+	{file: "ParsPrelude.lean", src: "(fixed prelude of the go-pars translator: checked slice operations, the result value, loops)", run: genParsPrelude},
+	{file: "Pars.lean", src: "the module directory of github.com/go-pars/pars (stack.go, state.go and the primitive parsers as functions)", run: genParsFns},
 	{file: "ParsFacts.lean", src: "the module directory of github.com/go-pars/pars (pin, inventory of what gts uses, the reached declarations as facts)", run: genParsFacts},
 }
 
